@@ -4,7 +4,7 @@
    and unicode.Is(Zs) as arbitrary predicates on runes; s ranges over lexer states whose cursor is
    inside its input (js_wf), in particular every state reachable from js_init d. *)
 From Verif Require Import Common.Base Common.Lx Gen.Tables JsLex.Model JsLex.Lemmas JsLex.Next JsLex.Proofs JsLex.Canon
-  JsLex.Comment JsLex.Regexp JsLex.RegexSound JsLex.Relex JsLex.RelexNext JsLex.Exchange JsLex.Exchange3 JsLex.SeqNext.
+  JsLex.Comment JsLex.Regexp JsLex.RegexSound JsLex.Relex JsLex.RelexNext JsLex.Exchange JsLex.Exchange3 JsLex.NumExchange JsLex.Stops JsLex.SeqRegex JsLex.SeqNext.
 
 (* C01: Next and RegExp never panic (no read outside data ++ [0], templateLevels never sliced empty),
    no loop runs out of fuel, and the cursor stays inside [0, len] — also on the error path. *)
@@ -170,7 +170,7 @@ Theorem regexp_sound :
 Proof. exact regexp_sound_proof. Qed.
 Print Assumptions regexp_sound.
 
-(* C06 token sequences: proved for every token class of the property — punctuators / operators (all 57
+(* C06 token sequences, for every token class of the property — punctuators / operators (all 57
    spellings), numeric literals (all radixes, separators, BigInt suffix, exponents), string literals
    (escapes, line continuations), identifiers + keywords + private identifiers (ASCII, Unicode letters,
    \u escapes, ZWNJ/ZWJ), template literals with nested substitutions to any depth (heads, middles,
@@ -178,32 +178,48 @@ Print Assumptions regexp_sound.
    bookkeeping), multi-line comments, the single-line comments "//", "<!--" and "-->" ended by LF, CR,
    U+2028, U+2029 or the end of input, whitespace (incl. non-ASCII spaces), line terminators (LF, CR,
    CRLF, U+2028, U+2029) and regular expression literals (item IRegex body flags: re_body as in
-   regexp_reread, with '/' in classes and escaped; the caller calls Next, which returns '/' or — when
-   the body starts with '=' — '/=', and then RegExp, which returns the literal).
-   seq_ok false true 0 [] its (no numeric literal before, at the start of a line, brace level 0, no
+   regexp_reread, with '/' in classes and escaped; flags re_flags: ASCII identifier characters and
+   non-ASCII ID_Continue characters; the caller calls Next, which returns '/' or — when the body starts
+   with '=' — '/=', and then RegExp, which returns the literal).
+   seq_exact false true 0 [] its (no numeric literal before, at the start of a line, brace level 0, no
    open template): every ITok ty T of its is a token of one of these classes (it lexes on its own to
    exactly that token: relexes; a comment text starts with "/*", "//", "<!--", or with "-->" where
    only whitespace and multi-line comments containing a line terminator separate it from the last line
    terminator or the start of input: plt_after is the specification of prevLineTerminator; a template
    continuation "}body${" / "}body`" is one whose head "`body${" / "`body`" is a TemplateStart /
    Template token and that arrives where a template is waiting at the current brace level), contains
-   no truncated multi-byte sequence, is followed by something that cannot extend it (stop_for:
-   "separated wherever two adjacent tokens would otherwise merge", in a sufficient form; closed tokens
-   accept any follower, '/' may directly follow any punctuator but '/', single-line comments run to a
-   line terminator or the end of input), and no identifier directly follows a numeric literal.  Then
-   the calls ops_of its return exactly the tokens toks_of its, in order, and end at the end of input.
-   PARTIAL, MISSING: followers that are safe but not in stop_for — an operator character directly after
-   a punctuator with which it forms no longer punctuator (e.g. "=-", "+!"), a non-ASCII rune (lead byte
-   >= 0xC0) directly after an identifier, whitespace or regular expression flags (e.g. U+00A0 after an
-   identifier) — and non-ASCII flag characters of a regular expression.
-   DEVIATION from ECMA-262 B.1.1 (finding c06-htmlclose:after-comment): the grammar also makes "-->"
-   a comment when a line terminator, optional whitespace and then multi-line-style comments that contain
-   no line terminator (with optional whitespace) precede it; the lexer (and therefore text_ok /
-   plt_after) does not: prevLineTerminator is cleared by such a comment, and "-->" is then the two
-   punctuators "--" ">". *)
-Theorem jslex_token_sequences_partial :
-  forall (ids idc zs : Z -> bool) (its : list item), seq_ok ids idc zs false true 0 [] its ->
+   no truncated multi-byte sequence, no identifier directly follows a numeric literal, and what follows
+   each token does not extend it — stops, the exact condition "separated wherever two adjacent tokens
+   would otherwise merge":
+     punctuator T (punct_stop): no punctuator of the generated token table that properly extends T is a
+       prefix of T and what follows (so '-' may follow '=', but '+' may not follow '+'), except that "?."
+       before a digit is no punctuator ('?' may be followed by ".5", "?." not by a digit); '.' is not
+       followed by a digit (".5" is a number), '/' not by '/' or '*', '<' not by "!--", and "--" at the
+       start of a line not by '>' (comment openers);
+     identifier / keyword (ident_stop): the next byte is no ASCII identifier character and no '\', and
+       where it is a lead byte >= 0xC0 the rune PeekRune decodes is not ID_Continue, ZWNJ or ZWJ;
+     whitespace (ws_stop): the next byte is not SP, TAB, VT, FF and the rune decoded there is not
+       U+00A0, U+FEFF or of category Zs;  line terminator (lt_stop): no line terminator follows;
+     numeric literal: the next byte is no ASCII identifier character (a digit, letter, '_' or '$' either
+       continues the literal or is forbidden after a NumericLiteral by ECMA-262 12.9.3), and '.' only
+       follows a literal that it cannot continue (every literal but a plain decimal integer:
+       is_dec_int), e.g. "0x1F.a", "1.5.toFixed";
+     string, template, multi-line comment: closed, any follower; single-line comments run to a line
+       terminator or the end of input;  regular expression flags (flag_stop): as for identifiers.
+   Then the calls ops_of its return exactly the tokens toks_of its, in order, and end at the end of
+   input.  (seq_ok / stop_for in SeqNext.v are the earlier sufficient conditions; seq_ok_exact shows
+   that they imply these, and JsPrint/LexBack.v uses them.)
+   DEVIATIONS of the lexer from ECMA-262 found while proving, outside the sequences specified here:
+   finding c06-htmlclose:after-comment — the grammar (B.1.1) also makes "-->" a comment when a line
+   terminator, optional whitespace and then multi-line-style comments that contain no line terminator
+   precede it; the lexer (and therefore text_ok / plt_after) does not: prevLineTerminator is cleared by
+   such a comment, and "-->" is then the two punctuators "--" ">".
+   finding c06-numeric-follow:digit — a decimal digit directly after a numeric literal that it does
+   not continue ("1n2", "0b12", "0o78") is a lexical error in the grammar (12.9.3) but two numeric
+   tokens in the lexer; the condition above excludes it. *)
+Theorem jslex_token_sequences :
+  forall (ids idc zs : Z -> bool) (its : list item), seq_exact ids idc zs false true 0 [] its ->
     exists s', jrun ids idc zs (ops_of its) (js_init (texts its)) = Ok (toks_of its, s') /\
       at_end (jcur s') = true /\ lstart (jcur s') = lpos (jcur s').
-Proof. exact jslex_token_sequences_partial_proof. Qed.
-Print Assumptions jslex_token_sequences_partial.
+Proof. exact jslex_token_sequences_proof. Qed.
+Print Assumptions jslex_token_sequences.
